@@ -9,6 +9,9 @@ fields are hostile inside the representable domain the quantifier names: '%',
 '%(x)s', '=', ':', '#', ';', brackets, tabs and non-ASCII in values,
 mixed-case option names.  Discinfo: same four monitors on generated
 (timestamp, description, arch, disc numbers).
+
+Later additions: ti-M6 / di-M6 - the re-read tree / .discinfo is edited (facts removed, lists changed in place) and
+written again; readers that are not pristine (header inspected, a truncated file refused before).
 """
 import os
 import random
